@@ -24,7 +24,7 @@ PY
 echo "== suite with the change (no demo)"; ( cd $W/mut && cargo test --offline --lib 2>&1 | grep "test result" )
 if [ -n "$target" ]; then
   inject $W/orig; inject $W/mut
-  name=$(grep -o 'fn [a-z_0-9]*' $D/m$N.demo.rs | head -1 | cut -d' ' -f2)
+  name=$(python3 -c "import re,sys; t=open('$D/m$N.demo.rs').read(); m=re.search(r'#\[(?:test|rstest)\][\s\S]*?fn (\w+)', t); print(m.group(1) if m else '')")
   echo "== demo on original ($target :: $name)"; ( cd $W/orig && cargo test --offline --lib $name 2>&1 | grep "test result\|panicked" | head -3 )
   echo "== demo with the change"; ( cd $W/mut && cargo test --offline --lib $name 2>&1 | grep "test result\|panicked" | head -3 )
   ( cd $W/mut && git init -q 2>/dev/null; true )
